@@ -4,7 +4,7 @@
     semantics of the statement - for every state and every number of loop iterations. The validator
     is evaluated in Coq on the REAL instruction list of every generated program. *)
 From Coq Require Import List ZArith Bool Arith Floats.SpecFloat.
-From RB Require Import Generated.Tables Val.Variant Val.Arith2 Lang.Ast Lang.Sem VM.Instr VM.Gen VM.Machine VM.GenProofs VM.Loops VM.ForLoops RT.Printer.
+From RB Require Import Generated.Tables Val.Variant Val.Arith2 Lang.Ast Lang.Sem VM.Instr VM.Gen VM.Machine VM.GenProofs VM.Loops VM.ForLoops VM.SelectCase RT.Printer.
 Import ListNotations.
 Local Open Scope nat_scope.
 
@@ -95,6 +95,81 @@ Fixpoint arms_check (code : list ipos) (p : pos) (pc pend : nat) (arms : list (e
       | [], None => Nat.eqb nxt pend
       | _, _ => is_label_at code nxt p && arms_check code p (S nxt) pend rest els
       end
+  end.
+
+(** SELECT CASE: the headers *)
+Fixpoint multi_stmts (p : pos) (pc : nat) (cs : list case_expr) (first : bool) : nat :=
+  match cs with
+  | [] => pc
+  | c :: t =>
+      let pc1 := if first then pc else S pc in
+      let lc := length (case_code c 0 p) in
+      match t with [] => pc1 + lc | _ => multi_stmts p (pc1 + lc + 1) t false end
+  end.
+
+Fixpoint multi_check (code : list ipos) (p : pos) (pc : nat) (cs : list case_expr) (first : bool) (stmts nxt : nat) : bool :=
+  match cs with
+  | [] => false
+  | c :: t =>
+      let pc1 := if first then pc else S pc in
+      (if first then true else is_label_at code pc p) &&
+      match t with
+      | [] => slice_is code pc1 (case_code c nxt p) && Nat.eqb (pc1 + length (case_code c nxt p)) stmts
+      | _ =>
+          let lc := length (case_code c 0 p) in
+          slice_is code pc1 (case_code c (pc1 + lc + 1) p) &&
+          instr_at code (pc1 + lc) (IJump (TAddr stmts), p) &&
+          multi_check code p (pc1 + lc + 1) t false stmts nxt
+      end
+  end.
+
+Definition header_bs (p : pos) (pc : nat) (cs : list case_expr) : option nat :=
+  match cs with
+  | [] => None
+  | [c] => Some (pc + length (case_code c 0 p))
+  | _ => Some (S (multi_stmts p pc cs true))
+  end.
+
+Definition header_check (code : list ipos) (p : pos) (pc : nat) (cs : list case_expr) (bs nxt : nat) : bool :=
+  match cs with
+  | [] => false
+  | [c] => slice_is code pc (case_code c nxt p) && Nat.eqb (pc + length (case_code c nxt p)) bs
+  | _ =>
+      let stmts := multi_stmts p pc cs true in
+      multi_check code p pc cs true stmts nxt && is_label_at code stmts p && Nat.eqb bs (S stmts)
+  end.
+
+(** SELECT CASE, first pass: where every block starts and how long it is; the address after the last CASE *)
+Fixpoint sel_pass1 (cb : list stmt -> nat -> option nat) (p : pos) (l : list (list case_expr * list stmt)) (pc : nat)
+  : option (list (list case_expr * list stmt * nat * nat) * nat) :=
+  match l with
+  | [] => Some ([], pc)
+  | (cs, b) :: t =>
+      match header_bs p (S pc) cs with
+      | None => None
+      | Some bs =>
+          match cb b bs with
+          | None => None
+          | Some lb =>
+              match sel_pass1 cb p t (bs + lb + 1) with
+              | Some (r, last) => Some ((cs, b, bs, lb) :: r, last)
+              | None => None
+              end
+          end
+      end
+  end.
+
+Fixpoint chain_check (code : list ipos) (p : pos) (pc pend : nat) (cases : list (list case_expr * list stmt * nat * nat)) (els : option (list stmt * nat)) : bool :=
+  match cases with
+  | [] =>
+      match els with
+      | Some (_, le) => is_label_at code pc p && Nat.eqb (S pc + le) pend
+      | None => Nat.eqb pc pend
+      end
+  | (cs, _, bs, lb) :: rest =>
+      is_label_at code pc p && header_check code p (S pc) cs bs (bs + lb + 1) &&
+      instr_at code (bs + lb) (IJump (TAddr pend), p) &&
+      chain_check code p (bs + lb + 1) pend rest els
   end.
 
 (** [check_stmt k code pc s]: the length of the code of [s] if the layout at [pc] is the generator's *)
@@ -209,7 +284,29 @@ Fixpoint check_stmt (k : nat) (code : list ipos) (pc : nat) (s : stmt) {struct k
               end
           | _, _ => None
           end
-      | _ => None
+      | SSelect p e cases els =>
+          let le := length (gen_expr e) in
+          match sel_pass1 check_block p cases (pc + le + 1) with
+          | None => None
+          | Some (cs4, last) =>
+              match els with
+              | None =>
+                  if slice_is code pc (gen_expr e) && instr_at code (pc + le) (IPushA, p) &&
+                     chain_check code p (pc + le + 1) last cs4 None &&
+                     is_label_at code last p && instr_at code (S last) (IPopA, p)
+                  then Some (S (S last) - pc) else None
+              | Some be =>
+                  match check_block be (S last) with
+                  | None => None
+                  | Some lbe =>
+                      let pend := S last + lbe in
+                      if slice_is code pc (gen_expr e) && instr_at code (pc + le) (IPushA, p) &&
+                         chain_check code p (pc + le + 1) pend cs4 (Some (be, lbe)) &&
+                         is_label_at code pend p && instr_at code (S pend) (IPopA, p)
+                      then Some (S (S pend) - pc) else None
+                  end
+              end
+          end
       end
   end.
 
